@@ -1,15 +1,16 @@
 """C05 - particle identity: pids dense, ordered, never reused, following the particle."""
 from contracts import state as S
 from contracts import tracker as T
+from contracts import warm as W
 
-UNITS = list(S.STATE_UNITS) + [T.Update("EF")]
+UNITS = list(S.STATE_UNITS) + [T.Update("EF"), W.WarmStart(), W.WarmStart(with_pdim=False)]
 LEMMAS = []
 NATIVE = [dict(name="all interleavings of State operations up to a bounded length + random longer histories (real State)", harness="state_histories_bounded", kind="bounded")]
 LEVEL = "proof"
 LEVEL_TEXT = ("Class-invariant proof over all histories: State.__init__ establishes and append (scalar/array/broadcast/default paths), compactify and item assignment preserve "
               "'all instance arrays equally long, pid strictly increasing, k <= pid[k] < npid, particle variables of length npid indexed by pid'; append hands out exactly "
               "npid..npid+m-1 and leaves the old prefix untouched (whole-view postcondition), compactify yields old o g for the increasing enumeration g of the alive positions "
-              "(exactly the dead dropped, order kept, particle variables and npid untouched), Tracker.update leaves pid untouched. Output records inherit pid[k] >= k and strict order (C06).")
+              "(exactly the dead dropped, order kept, particle variables and npid untouched), Tracker.update leaves pid untouched; warm_start (the other way a State is filled) makes the state exactly the last record of the restart file, all instance arrays with that record's length (also for an empty last record), and sets npid above every pid on file. Output records inherit pid[k] >= k and strict order (C06).")
 LEVEL_NOTE = ("boolean-mask indexing A[mask] is ASSUMED to enumerate the true positions in increasing order (ghost g); one generic extra instance and one particle variable stand for all; "
               "pid monotonicity over arbitrary index pairs is used as the (inductive) consequence of the adjacent form; user IBMs must keep array lengths (item assignment precondition)")
 TECHNIQUE = "contract-based deductive verification (class invariant, whole-view postconditions, ghost enumeration for mask indexing)"
